@@ -5,7 +5,7 @@ Import ListNotations.
 From PG Require Import Common.Tactics Model.SymCoreDefs Model.SymCoreOps Model.SymCoreSpec Model.SymCoreC02
      Proofs.SymCoreBase Proofs.SymCoreWF Proofs.SymCoreWFOps Proofs.SymCoreClone Proofs.SymCoreIds Proofs.SymCoreC02Read
      Proofs.SymCoreC02Frame Proofs.SymCoreC02Prim Proofs.SymCoreC02List Proofs.SymCoreC02Dict Proofs.SymCoreC02Step
-     Proofs.SymCoreC02Slice Proofs.SymCoreC02WF Proofs.SymCoreC02Or Proofs.SymCoreC02Rebind.
+     Proofs.SymCoreC02Slice Proofs.SymCoreC02WF Proofs.SymCoreC02Or Proofs.SymCoreC02Rebind Proofs.SymCoreC02Nested.
 From PG Require Model.PyList Model.PyDict.
 Local Open Scope Z_scope.
 
@@ -105,3 +105,21 @@ Example ex_batch_result :
   SymCoreC02Rebind.py_lwrites (map (fun z => PLeaf (LInt z)) [0;1;2;3;4;5;6;7;8;9;10;11]) (map SymCoreC02Rebind.entry_w (sort_desc ex_batch)) =
   (map (fun z => PLeaf (LInt z)) [0;1;100;2;3;4;5;6;7;8;9;101;102], None).
 Proof. vm_compute. reflexivity. Qed.
+
+(* a batch with paths of different lengths on the list root of ex_state: [1].a (a key of the nested dict), an insertion at 0,
+   an append past the end, and an entry that fails (below -len) after the others were applied *)
+Definition ex_nested_batch : list (list key * rvalue) :=
+  [([KI 1; ka], RLeaf (LInt 7)); ([KI 0], RIns (RLit (LitNode KList default_flags true []))); ([KI 9], RLeaf (LStr [99%N]));
+   ([KI (-7)], RLeaf LNone)].
+Example ex_nested_batch_hypotheses :
+  SymCoreC02Nested.root_dclean ex_state 0 /\ Forall (fun pv0 => SymCoreC02Nested.val_ok (snd pv0)) ex_nested_batch /\
+  SymCoreC02Nested.py_batch (erase (Node 1 KList None [] default_flags ex_list_items))
+    (SymCoreC02Nested.entries (sort_desc ex_nested_batch)) =
+  Some (plist [PNode KList []; PLeaf (LInt 1); PNode KDict [(ka, PLeaf (LInt 7))]; PLeaf (LStr [98%N]); PLeaf (LStr [99%N])],
+        Some PyList.PyIndexError).
+Proof.
+  split; [|split].
+  - intros t G. vm_compute in G. inv G. simpl. repeat split; repeat constructor; simpl; intuition discriminate.
+  - repeat (constructor; [reflexivity|]). constructor.
+  - vm_compute. reflexivity.
+Qed.
